@@ -801,14 +801,24 @@ class SEnum(_Proxy):
 
     __hash__ = _Proxy.__hash__
 
+    def reindex(self, labels):
+        """z3 Int: position of this string in another list of labels (-1 if absent)"""
+        if tuple(labels) == self.domain:
+            return self.z
+        r = z3.IntVal(-1)
+        for i, s in reversed(list(enumerate(self.domain))):
+            if s in labels:
+                r = z3.If(self.z == i, z3.IntVal(list(labels).index(s)), r)
+        return z3.simplify(r)
+
     def concretize(self):
         """fork over the domain: returns the concrete string of this path"""
         c = ctx()
-        for i, s in enumerate(self.domain[:-1]):
-            if c.branch(self.z == i):
-                return s
-        c.assume(self.z == len(self.domain) - 1)
-        return self.domain[-1]
+        v = z3.simplify(self.z)
+        if z3.is_int_value(v):
+            return self.domain[v.as_long()]
+        k = c.choose(self.z, len(self.domain))
+        return self.domain[k]
 
     def __str__(self):
         return self.concretize()
